@@ -51,6 +51,13 @@ FNewWriterFail ==
   /\ Ev.ev = "new_writer" /\ ~Ev.ok /\ ~wopen /\ faultSeen
   /\ Same /\ UNCHANGED faultSeen
 
+\* a second Index instance cannot be opened (its reads failed): an error with a cause, nothing changes;
+\* the harness then has no instance to switch to and refuses `switch_index` itself
+FSecondFail ==
+  /\ \/ Ev.ev = "open_second" /\ ~Ev.ok /\ faultSeen
+     \/ Ev.ev = "switch_index" /\ ~Ev.ok
+  /\ Same /\ UNCHANGED faultSeen
+
 FWaitFail ==
   /\ Ev.ev = "wait_merges" /\ ~Ev.ok /\ Ev.err # "nowriter" /\ faultSeen /\ wopen
   /\ ObsIs(Ev.obs, commd)
@@ -87,7 +94,7 @@ FStep ==
   /\ calling' = CASE Ev.ev = "call" -> TRUE
                   [] Ev.ev \in {"commit", "prepare_commit", "prepare_abort", "reset"} -> FALSE
                   [] OTHER -> calling
-  /\ (FFault \/ FHeal \/ FOpFail \/ FCommitFail \/ FRollbackFail \/ FNewWriterFail \/ FWaitFail \/ FGcFail \/ FSummary \/ FReload)
+  /\ (FFault \/ FHeal \/ FOpFail \/ FCommitFail \/ FRollbackFail \/ FNewWriterFail \/ FSecondFail \/ FWaitFail \/ FGcFail \/ FSummary \/ FReload)
 
 \* successful calls follow CoreTrace unchanged; a successful merge keeps the content (TMerge)
 FMergeStep ==
